@@ -1203,12 +1203,17 @@ func firstPass(w0 *world, out *JobOut, outcomes map[string]bool, addVio func(str
 		}
 		obs := "later-unaltered-packets-delivered"
 		if orig == 0 || fenceN == 0 {
+			// "each side decrypts exactly what the other encrypts": the unaltered original and the fence packet
+			// were encrypted by the peer and must be delivered, whatever was discarded before them
 			obs = "later-unaltered-packets-rejected"
-			out.Counts["observation/first-packet-altered/later-unaltered-packets-rejected"]++
+			out.Counts["first-packet-altered/later-unaltered-packets-rejected"]++
+			detail["original_delivered"] = orig
+			detail["fence_delivered"] = fenceN
+			addVio("first-packet-altered/later-unaltered-packets-rejected", detail)
 		}
 		outcomes[fmt.Sprintf("observation/%s/%s/first-packet-ssrc-altered/%s", job.name(), wr.Name, obs)] = true
 		if k == 0 {
-			out.Samples = append(out.Samples, map[string]any{"part": "B (observation, not demanded)", "target": job.name() + "/" + wr.Name, "first_packet_alteration": a, "decode_errors": errs, "observation": obs})
+			out.Samples = append(out.Samples, map[string]any{"part": "B (first packet altered)", "target": job.name() + "/" + wr.Name, "first_packet_alteration": a, "decode_errors": errs, "observation": obs})
 		}
 	}
 }
